@@ -139,7 +139,7 @@ func (d *tDecoder) Decode(b []byte, base unsafe.Pointer, sd *structDesc, maxdept
 	}
 	for _, fid := range sd.requiredFieldIDs {
 		if !bs.test(fid) {
-			return i, newRequiredFieldNotSetException(lookupFieldName(sd.rt, sd.GetField(fid).Offset, sd.GetField(fid).Type.RT))
+			return i, newRequiredFieldNotSetException(sd.GetField(fid).Name)
 		}
 	}
 	if ufs != nil && ufs.Size() > 0 {
